@@ -22,7 +22,7 @@ Proof. unfold dinfo_step, dinfo_step_t, dinfo_table, find_row. cbn [r_num r_slot
 Lemma dense_step_table s f : dense_step s f = dense_step_t s f.
 Proof. unfold dense_step, dense_step_t, dense_table, find_row. cbn [r_num r_slot r_msg]. by_cases (fst f). Qed.
 
-Lemma fill_table f : forall l prev index nodes, fill f l prev index nodes = fill_t ASint64 f l prev index nodes.
+Lemma fill_table f : forall l prev index nodes, fill f l prev index nodes = fill_t ASint64 Delta64 f l prev index nodes.
 Proof.
   induction l as [|v r IH]; intros prev index nodes; simpl; [reflexivity|].
   destruct (upd nodes index (f (wrap64 (sint64 v + prev)))); simpl; auto.
@@ -84,3 +84,35 @@ Proof.
   destruct (Z.eqb_spec n 4) as [E|_]; [subst; simpl; destruct (skip_rels c); reflexivity|].
   reflexivity.
 Qed.
+
+(* ---------- found-flag rules ---------- *)
+Lemma nil_info_table fi ic : nil_info fi ic = nil_info_t fi ic.
+Proof. destruct fi as [f1 f2 f3 f4 f5 f6]. destruct f1, f2, f3, f4, f5, f6; reflexivity. Qed.
+
+Lemma dense_fixup_table s : dense_fixup s = dense_fixup_t s.
+Proof.
+  destruct s as [[c1 [i1 i2 i3 i4 i5 i6] c3 c4 c5] [f1 f2 f3 f4 f5]].
+  destruct f1, f2, f3, f4, f5; reflexivity.
+Qed.
+
+Lemma tags_if_found_table_way st fk fv wc old :
+  tags_if_found st fk fv wc old
+  = if forallb (wflag fk fv) (use_flags way_rules "call:scanTags")
+    then match c_keys wc, c_vals wc with Some ks, Some vs => scan_tags st ks vs | _, _ => Panic end
+    else Ok old.
+Proof. destruct fk, fv; reflexivity. Qed.
+
+Lemma tags_if_found_table_rel st fk fv fr fm ft wc old :
+  tags_if_found st fk fv wc old
+  = if forallb (rflag fk fv fr fm ft) (use_flags rel_rules "call:scanTags")
+    then match c_keys wc, c_vals wc with Some ks, Some vs => scan_tags st ks vs | _, _ => Panic end
+    else Ok old.
+Proof. destruct fk, fv; reflexivity. Qed.
+
+Lemma members_if_found_table st fk fv fr fm ft wc old :
+  members_if_found st fr fm ft wc old
+  = if forallb (rflag fk fv fr fm ft) (use_flags rel_rules "call:extractMembers")
+    then match c_roles wc, c_memids wc, c_types wc with
+         | Some a, Some b, Some c => extract_members st a b c | _, _, _ => Panic end
+    else Ok old.
+Proof. destruct fr, fm, ft; reflexivity. Qed.
